@@ -223,7 +223,7 @@ prop(
     "C02",
     level="other",
     design_ref="DESIGN.md section 3, C02",
-    groups=[(_PIPE, r"^(\(\*stream\)\.(put|get|instantGet|commit|tryDetach|leave|tryUnblock)|\(\*streamer\)\.getStream|\(\*Pipeline\)\.finalize|\(\*processor\)\.(processEvent|processSequence|Propagate|doActions)|\(\*Batcher\)\.(Add|commitBatch))$")],
+    groups=[(_PIPE, r"^(\(\*stream\)\.(put|get|instantGet|commit|tryDetach|leave|tryUnblock)|\(\*streamer\)\.getStream|\(\*Pipeline\)\.(finalize|streamEvent)|\(\*processor\)\.(processEvent|processSequence|Propagate|doActions)|\(\*Batcher\)\.(Add|commitBatch))$")],
     claim=(
         "Per-stream order mechanisms proved: stream.put hands out strictly increasing sequence ids in arrival order under the stream lock and appends at the tail; get takes the head (FIFO) and records it as the stream's away event; "
         "after hold/collapse the processor takes the next event from the same stream; Propagate re-injects a held event at the action after the one that held it before the triggering event continues; "
@@ -263,7 +263,7 @@ prop(
     "C05",
     level="other",
     design_ref="DESIGN.md section 3, C05",
-    groups=[(_PIPE, r"^(\(\*Pipeline\)\.(In|finalize)|\(\*lowMemoryEventPool\)\.(get|back|inUse)|\(\*Event\)\.reset|\(\*processor\)\.(doActions|processSequence))$")],
+    groups=[(_PIPE, r"^(\(\*Pipeline\)\.(In|finalize|streamEvent)|\(\*lowMemoryEventPool\)\.(get|back|inUse)|\(\*Event\)\.reset|\(\*processor\)\.(doActions|processSequence))$")],
     canaries=[("./pipeline", "replay/C05/zz_sample_after_back_test.go", "TestVerifSampleReadsLiveEvent")],
     claim=(
         "Linear ownership accounting proved per function: Pipeline.In takes at most one event from the pool and on every exit path has either streamed it or returned it (held == 0 at every return); "
@@ -360,12 +360,12 @@ prop(
     design_ref="DESIGN.md section 3, C17",
     groups=[(["./plugin/action/mask"], r"^\(\*Mask\)\.(maskValue|maskSection)$"), (["./cfg"], r"^VerifyGroupNumbers$"), (["./cfg/matchrule"], r"^\(\*Rule\)\.(Match|match|Prepare)$"),
             (["./plugin/action/mask", "./pipeline"], r"^(addFieldsToTree|\(\*Plugin\)\.(traverseTree|processMask))$")],
-    canaries=[("./plugin/action/mask", "replay/C17/zz_replay_c17_test.go", "TestVerifReplayC17Tail"), ("./plugin/action/mask", "replay/C17/zz_cut_to_empty_test.go", "TestVerifCutToEmptyStaysCut")],
-    known_canaries=[("./plugin/action/mask", "replay/C17/zz_replay_c17_test.go", "TestVerifReplayC17Order")],
+    canaries=[("./plugin/action/mask", "replay/C17/zz_replay_c17_test.go", "TestVerifReplayC17Tail"), ("./plugin/action/mask", "replay/C17/zz_cut_to_empty_test.go", "TestVerifCutToEmptyStaysCut"),
+              ("./plugin/action/mask", "replay/C17/zz_replay_c17_test.go", "TestVerifReplayC17Order"), ("./plugin/action/mask", "replay/C17/zz_group_order_test.go", "TestVerifMaskGroupOrder")],
     claim=(
         "maskValue under contract against a regexp model that promises only what the library guarantees (every submatch pair is (-1,-1) or 0<=s<=e<=len, nothing about the order of groups): "
         "all index computations on the match vector are in range for validated group numbers, the tail is copied from the end of the last masked section, and the tiling condition "
-        "(each copied piece value[prevFinish:curStart] starts where the previous masked section ended) is the slice-bound obligation - it FAILS for nested / out-of-order groups: KNOWN FINDING (open, replayed). "
+        "(each copied piece value[prevFinish:curStart] starts where the previous masked section ended) is the slice-bound obligation - proved for every order and nesting of the selected groups (it failed for nested / out-of-order groups until the repair: a group that starts inside what is written already is skipped or clipped). "
         "maskSection: cut appends nothing, replace appends exactly the word, mask appends exactly min(rune count of the section, max_count) asterisks (the rune count being that of src[begin:end], taken once). "
         "VerifyGroupNumbers returns only group numbers within 0..NumSubexp (what maskValue requires). Match rules: the configured inversion is applied to the outcome of the comparison for every value, short ones included. "
         "Field lists: addFieldsToTree runs the leaf callback exactly once per configured path whether or not the nodes existed; traverseTree hands to array element i the node listed for index i or the empty node, decided per element."
@@ -399,8 +399,8 @@ prop(
               ("./plugin/input/k8s", "replay/C13/zz_k8s_cutoff_escape_test.go", "TestVerifK8sCutOffKeepsEscapesWhole"),
               ("./plugin/action/decode", "replay/C13/zz_decode_prefix_test.go", "TestVerifDecodePrefixSurvivesLaterActions"),
               ("./cfg/substitution", "replay/C13/trimto_empty_cutset_test.go", "TestVerifTrimToEmptyCutset"),
-              ("./plugin/action/decode", "replay/C13/zz_decode_check_error_test.go", "TestVerifDecodeCheckErrorWithLogging")],
-    known_canaries=[("./plugin/action/mask", "replay/C17/zz_replay_c17_test.go", "TestVerifReplayC17Order")],
+              ("./plugin/action/decode", "replay/C13/zz_decode_check_error_test.go", "TestVerifDecodeCheckErrorWithLogging"),
+              ("./plugin/action/mask", "replay/C17/zz_group_order_test.go", "TestVerifMaskGroupOrder")],
     claim=(
         "No-panic of the index / slice arithmetic on event bytes in the action code brought under contract so far: mask.maskValue and maskSection (every index into the submatch vector and every slice of the value, for all values and all validated group lists), "
         "the k8s multiline action (every slice of the escaped log fragment, for every event content - empty string, non-string value, fragments shorter than the newline marker - under the state invariant 1 <= len(buffer) <= max_event_size-2 which Do itself preserves), "
@@ -409,7 +409,7 @@ prop(
         "the modify action's field filters (cut, trim_to, re: results are sub-slices of the value; group indices within the submatch vector) and the match-rule comparison (prefix / suffix cuts). "
         "The processor hands a stream time-out event only to an action that is waiting (busy at its index, or no action is busy), never to the action that merely returned non-pass last - that one would be called with a nil Root. "
         "Metric label values built from event fields are valid UTF-8 after truncateLabels (prometheus panics otherwise). The decode action's unsafe key-name views lie inside the buffer decodeJson returns, and Do keeps exactly that buffer as event.Buf (rule for ByteToStringUnsafe views: inside the live prefix of a buffer that stays the event's). "
-        "Eight fixes (mask tail, k8s multiline, trim_to with an empty cutset, time-out addressed to the wrong action, label values, decode key names, convert_utf8_bytes shared buffer, k8s cut-off inside an escape) and one open known finding (mask: nested / out-of-order groups) came out of it."
+        "Eight fixes (mask tail, k8s multiline, trim_to with an empty cutset, time-out addressed to the wrong action, label values, decode key names, convert_utf8_bytes shared buffer, k8s cut-off inside an escape) and one long-open finding (mask: nested / out-of-order groups) came out of it; the mask finding was repaired later (skip / clip + sorted groups), as were decode's checkError and the unprepared match rule."
     ),
     undecided=[
         "the full statement (27 plugins x every accepted configuration x every JSON event, result still well-formed JSON) lives in insane-json's mutable node graph (third-party): not applicable to contracts on file.d code",
@@ -447,7 +447,7 @@ prop(
     "C03",
     level="other",
     design_ref="DESIGN.md section 3, C03",
-    groups=[(["./plugin/input/file", "./pipeline"], r"^(\(\*Plugin\)\.PassEvent|\(\*jobProvider\)\.(commit|truncateJob|initJobOffset|addJob)|\(\*worker\)\.(processEOF|work))$")],
+    groups=[(["./plugin/input/file", "./pipeline"], r"^(\(\*Plugin\)\.PassEvent|\(\*jobProvider\)\.(commit|truncateJob|initJobOffset|addJob)|\(\*worker\)\.(processEOF|work)|\(\*Pipeline\)\.streamEvent)$")],
     canaries=[("./plugin/input/file", "replay/C03/zz_truncation_tail_test.go", "TestVerifTruncationDropsStaleTail"),
               ("./plugin/input/file", "replay/C03/zz_rejected_last_line_truncation_test.go", "TestVerifTruncationAfterRejectedLastLine")],
     claim=(
